@@ -37,13 +37,15 @@ def interOut (tok : α → String) (P1 P2 : List (α × α)) : String :=
     toString i ++ " " ++ toString j ++ " " ++ solOut tok r) ++ " " ++ ptsOut tok (intersect P1 P2)
 
 /-- second stage of the design-condition model at carrier `α` on the doubles computed by the
-first (Float) stage: `nres {x y}* nsteps {ncand {i j s …}* npts {x y}*}*` -/
+first (Float) stage: `cover nres {x y}* nsteps {ncand {i j s …}* npts {x y}*}*`; `cover` is
+`probeCovers` evaluated at carrier `α` on exactly the `closed`, `ylo`, `yhi` handed to `designCore`
+(the hypothesis of the theorems `design_core_*_covered`) -/
 def designOut (tok : α → String) (cast : Float → α) (s : DesignSetup Float) : String :=
   let closed := s.closed.map fun p => (cast p.1, cast p.2)
   let ylo := cast s.ylo
   let yhi := cast s.yhi
   let steps := s.steps.map cast
-  ptsOut tok (designCore closed ylo yhi steps) ++ " " ++
+  tokOfB (probeCovers closed ylo yhi) ++ " " ++ ptsOut tok (designCore closed ylo yhi steps) ++ " " ++
   " ".intercalate (toString steps.length :: steps.map fun x2 =>
     interOut tok closed [(x2, ylo), (x2, yhi)])
 
@@ -54,7 +56,7 @@ def zipXY (xs ys : List Float) : List (Float × Float) := xs.zip ys
 /-- ops
 `c17_inter  <F|Q> fl(x1) fl(y1) fl(x2) fl(y2)`
 `c17_design <F|Q> <tenth> <small> <swap> <D | N n | L fl(steps)> fl(c0) fl(c1)`  (columns 0 and 1 of
-`contour.coordinates`); answer `OK nsteps steps… ylo yhi <designOut>`; `ERR empty` for no points
+`contour.coordinates`); answer `OK nsteps steps… ylo yhi <designOut>` (`designOut` starts with the `cover` flag); `ERR empty` for no points
 `c17_linspace <a> <b> <num>` -/
 def handleC17 : Handler := fun _ toks =>
   match toks with
